@@ -53,12 +53,16 @@ class LockEngine(Engine):
                                flags={k: v for k, v in st.ghost.items() if isinstance(k, tuple) and k[0] in ('disc', 'obs')}),
                         ('acq', inst.fn.name, inst.id, st.stack(), tuple(sorted(st.ghost.items(), key=repr))))
             mode = LOCKS.get(callee) or TRYLOCKS[callee]
+            s2 = None if blocking else st.fork()
             st.ghost[('ever', m)] = 1
-            if blocking:
-                st.ghost[('held', m)] = mode
-                return [(st, TOP)]
-            s2 = st.fork()
+            # C13.R5: re-taking the mutex of an object on whose list this thread left a record of its own frame synchronises with
+            # any waker that unlinked the record (wakers touch records only inside that mutex)
+            o = self.obj_of_mutex(m)
+            if st.ghost.get(('enq_local', o)) == 2:
+                del st.ghost[('enq_local', o)]
             st.ghost[('held', m)] = mode
+            if blocking:
+                return [(st, TOP)]
             return [(st, 1), (s2, 0)]
         if callee in UNLOCKS:
             m = args[0] if args else None
@@ -68,6 +72,8 @@ class LockEngine(Engine):
             st.ghost.pop(('held', m), None)
             o = self.obj_of_mutex(m)
             st.ghost.pop(('obs', o), None)
+            if st.ghost.get(('enq_local', o)) == 1:
+                st.ghost[('enq_local', o)] = 2          # the record is now visible to wakers
             return [(st, TOP)]
         if callee in CONDWAITS:
             m = args[0] if args else None
@@ -129,6 +135,9 @@ class LockEngine(Engine):
                 self.record(Record('enqueue', inst, st, field=fld, obj=obj, held=dict(self.held(st)), observed=bool(st.ghost.get(('obs', obj))), entry=self.entry_name,
                                    element=(self.callargs.get((self.entry_name, v.base)) or [None, None])[1]),
                             ('enq', inst.fn.name, inst.id, st.stack(), bool(st.ghost.get(('obs', obj))), tuple(sorted(self.held(st).items(), key=repr))))
+                el = (self.callargs.get((self.entry_name, v.base)) or [None, None])[1]
+                if isinstance(el, Ptr) and el.base.startswith('alloca:'):
+                    st.ghost[('enq_local', obj)] = 1           # a record living in this thread's frame is put on a shared list
             if fld.endswith('.disconnecting'):
                 # ++ / -- of the disconnecting count by this thread
                 vi = f.fn.imap.get(inst.ops[0]) if isinstance(inst.ops[0], str) else None
